@@ -31,6 +31,14 @@ def program(rng, lang, nlines=None, crlf=False, blanks=False):
 
 
 def render(lines, sep):
+    if sep == 'mix':
+        # both endings in one text, the first line CRLF and the last LF (or the other way round when there are two lines or more)
+        seps = ['\r\n' if (i * 7 + len(l)) % 3 else '\n' for i, l in enumerate(lines)]
+        if lines:
+            seps[0] = '\r\n'
+            seps[-1] = '\n' if len(lines) > 1 else '\r\n'
+        src, _ = langgen.split_marks(''.join(l + e for l, e in zip(lines, seps)))
+        return src
     src, _ = langgen.split_marks(sep.join(lines) + sep)
     return src
 
